@@ -105,6 +105,17 @@ EXPECT.append(("work = make(chan interface, 3); stop = make(chan interface, 3)\n
                "r = []\nfor w in work { s, ok = <-stop; if s { break }; r += w }\nr", "[i:10,i:20,i:30]",
                "a worker loop that polls a stop channel per item still receives every item of its work channel"))
 
+# a for-in over a channel takes one item per iteration: what it has not been handed stays in the channel for the next receiver
+_C5 = "c = make(chan interface, 5)\nfor x in [1, 2, 3, 4, 5] { c <- x }\nclose(c)\n"
+EXPECT.append((_C5 + "for x in c { if x == 2 { break } }\nr = []; for x in c { r += x }; r", "[i:3,i:4,i:5]", "a for-in left by break leaves the items it was not handed in the channel"))
+EXPECT.append((_C5 + "for x in c { if x == 2 { break } }\nlen(c)", "i:3", "... and they still count in len"))
+EXPECT.append((_C5 + "func head(ch) { for x in ch { return x } }\nh = head(c)\nr = [h]; for x in c { r += x }; r", "[i:1,i:2,i:3,i:4,i:5]", "a for-in left by return inside a function: the next reader gets the rest"))
+EXPECT.append((_C5 + "try { for x in c { if x == 3 { throw \"stop\" } } } catch e { }\nr = []; for x in c { r += x }; r", "[i:4,i:5]", "a for-in left by an error: the next reader gets the rest"))
+EXPECT.append((_C5 + "n = 0\nfor x in c { n++; if n == 2 { break } }\nv, ok = <-c\n[v, ok]", "[i:3,b:true]", "a two-value receive after a for-in that was left early gets the next item"))
+EXPECT.append((_C5 + "out = make(chan interface, 5)\nfunc first(ch) { for x in ch { return x } }\nhd = first(c)\ngo func() { for x in c { out <- x * 10 }; close(out) }()\nr = [hd]; for x in out { r += x }; r",
+               "[i:1,i:20,i:30,i:40,i:50]", "a header reader that returns from its for-in, then a goroutine stage relaying the rest"))
+EXPECT.append(("c = make(chan interface, 3); c <- 1; c <- 2; c <- 3\nfor x in c { break }\n[<-c, <-c]", "[i:2,i:3]", "a for-in over an open buffered channel left at its first item"))
+
 
 def run(tier, seed, replay=None):
     res = Result(PID, tier, seed)
